@@ -272,10 +272,48 @@ def layout_stability(ctx, L):
     ctx.count("layout-stability-messages", len(msgs))
 
 
+def long_buffers(ctx, L):
+    """Every size-prefixed byte buffer type with 1025 and 4097 bytes: in the pinned layout a TPM2B size is a plain UINT16,
+    no type has a smaller limit of its own."""
+    from ..gen import Case
+
+    names = sorted(n for n, s_ in L.snap["structs"].items() if s_["kind"] != "union" and len(s_["fields"]) == 2 and s_["fields"][1][1] == "list[BYTE]" and L.is_prim(s_["fields"][0][1]) and n != "TPM2B_ENCRYPTED_PARAM")
+    for tname in ctx.mine(names):
+        (sname, stype), (bname, btype) = L.struct(tname)["fields"]
+        for n in (1025, 4097):
+            if not L.contains(stype, n):
+                continue
+            toks = [["", tname, "..."], [f".{sname}", stype, n], [f".{bname}", btype, "..."]] + [[f".{bname}[{i}]", "BYTE", (i * 11 + n) & 0xFF] for i in range(n)]
+            c01.check_case(ctx, L, Case(tname, toks, L, meta={"lists": [(btype, n)], "flags": ["long-buffer"]}))
+            ctx.count("long-buffers")
+
+
+def alias_command_codes(ctx, L):
+    """The command-code numbers are the pinned ones and nothing else: a response decoded for a number that is a known code
+    plus reserved / vendor bits has no layout (ValueConstraintViolatedError), it does not borrow the known command's."""
+    from .. import gen
+    from .strictdiff import report, strict_pair
+
+    for cc_name in ctx.mine(sorted(L.commands)):
+        toks, meta = gen.Builder(L, gen.FixedChooser(), big=False, rare=False).response(cc_name, None, enc=False, failed=False)
+        cc = L.commands[cc_name]["code"]
+        case = gen.Case("Response", toks, L, cc=cc, enc=False, meta=meta)
+        for ucc in (0x20000000 | cc, 0x00010000 | cc, 0x40000000 | cc, 0x80000000 | cc):
+            if ucc in L.cc_by_code:
+                continue
+            ref, obs = strict_pair(L, "Response", case.data, ucc, False)
+            ctx.case(("alias-cc", ucc, case.data), True, sample={"response_of": cc_name, "decoded_for_command_code": hex(ucc)} if ucc >> 16 == 1 and cc % 7 == 0 else None)
+            ctx.count("alias-command-codes")
+            if not report(ctx, ID, L, "Response", case.data, ucc, False, ref, obs, extra=f"decoded for command code {ucc:#x}, an alias of {cc_name} ({cc:#x})"):
+                return
+
+
 def run_shard(ctx):
     L = layout()
     if ctx.shard == 0:
         ctx.run_plain(lambda: tables_check(ctx), "tables")
+    ctx.run_plain(lambda: long_buffers(ctx, L), "long-buffers")
+    ctx.run_plain(lambda: alias_command_codes(ctx, L), "alias-command-codes")
     if ctx.shard == 1:
         ctx.run_plain(lambda: layout_stability(ctx, L), "layout-stability")
     from .. import gen
